@@ -49,6 +49,95 @@ theorem new_ok_bv {num : Nat} {more : Bool} {size : Nat} {b : BlockValue}
         subst h
         constructor <;> simp only <;> omega
 
+theorem new_ne_panic (num : Nat) (more : Bool) (size : Nat) : BlockValue.new num more size ≠ .panic := by
+  unfold BlockValue.new
+  split
+  · simp
+  · simp only
+    split
+    · simp
+    · split <;> simp
+
+/-! `clampBlock` (D21 fix) -/
+
+theorem clampBlock_ne_panic (b : BlockValue) (s : Option Nat) : clampBlock b s ≠ .panic := by
+  unfold clampBlock
+  split
+  · split
+    · have := new_ne_panic (b.num * 2 ^ (b.szx - ‹Nat›)) b.more (16 * 2 ^ ‹Nat›)
+      split <;> simp_all [badRequest]
+    · simp
+  · simp
+
+theorem clampBlock_ok_bv {b b' : BlockValue} {s : Option Nat} (hb : BvOk b)
+    (h : clampBlock b s = .ok b') : BvOk b' := by
+  unfold clampBlock at h
+  split at h
+  · split at h
+    · split at h
+      · rename_i hn
+        simp only [HRes.ok.injEq] at h
+        subst h
+        exact new_ok_bv hn
+      · simp [badRequest] at h
+      · simp at h
+    · simp only [HRes.ok.injEq] at h
+      subst h
+      exact hb
+  · simp only [HRes.ok.injEq] at h
+    subst h
+    exact hb
+
+theorem clampBlock_err {b : BlockValue} {s : Option Nat} {c : Option ResponseType}
+    (h : clampBlock b s = .herr c) : c = some .BadRequest := by
+  unfold clampBlock at h
+  split at h
+  · split at h
+    · split at h
+      · simp at h
+      · simpa [badRequest, eq_comm] using h
+      · simp at h
+    · simp at h
+  · simp at h
+
+/-- a follow-up that does not name a larger size than the negotiated one is served as it is -/
+theorem clampBlock_le {b : BlockValue} {s : Option Nat} (h : ∀ x, s = some x → b.szx ≤ x) :
+    clampBlock b s = .ok b := by
+  unfold clampBlock
+  split
+  · rename_i x
+    have := h x rfl
+    rw [if_neg (by omega)]
+  · rfl
+
+/-- what a clamped follow-up is served: the same offset, at the negotiated size -/
+theorem clampBlock_gt {b b' : BlockValue} {x : Nat} (hx : x < b.szx)
+    (h : clampBlock b (some x) = .ok b') :
+    b'.szx = x ∧ b'.num * b'.size = b.num * b.size ∧ b'.more = b.more := by
+  unfold clampBlock at h
+  simp only [hx, ↓reduceIte] at h
+  split at h
+  · rename_i bb hn
+    simp only [HRes.ok.injEq] at h
+    subst h
+    have hsz : 16 * 2 ^ x = 2 ^ (x + 4) := by rw [Nat.pow_add]; omega
+    have hpos : 1 ≤ 2 ^ (x + 4) := Nat.one_le_two_pow
+    by_cases hbad : 16 * 2 ^ x = 0 ∨ 4096 ≤ 16 * 2 ^ x ∨ 65535 < b.num * 2 ^ (b.szx - x)
+    · rw [C13.new_err _ _ _ hbad] at hn
+      simp at hn
+    · rw [C13.new_ok _ _ _ (by omega) (by omega) (by omega)] at hn
+      simp only [Res.ok.injEq] at hn
+      subst hn
+      have hl : Nat.log2 (16 * 2 ^ x) = x + 4 := by rw [hsz, Nat.log2_two_pow]
+      refine ⟨by simp only [hl]; omega, ?_, rfl⟩
+      simp only [BlockValue.size, hl]
+      have : x + 4 - 4 + 4 = x + 4 := by omega
+      rw [this, Nat.mul_assoc, ← Nat.pow_add]
+      congr 2
+      omega
+  · simp [badRequest] at h
+  · simp at h
+
 theorem newBlock_ok_bv {num : Nat} {more : Bool} {size : Nat} {b : BlockValue}
     (h : newBlock num more size = .ok (some b)) : BvOk b := by
   unfold newBlock at h
